@@ -109,7 +109,9 @@ RULE = ("identity: sequences of 1..6 steps (validate certificate i of the real p
         "SRTP-looking/junk datagrams × optional earlier connection(s) in the same process (look-alike certificate, same parties "
         "twice), then data/RTCP/RTP traffic: per (side, SSRC of 3) extended sequence numbers +1 / forward jumps / backward jumps "
         "1..1025 incl. 127,128,129,1023,1024 / retransmissions / start values around 2^15 and 2^16, bit flips and overtaking in "
-        "transit; data messages of 0, 1..1100, every size in {1180..1463} hit around 1200/1228/1243/1244/1280/1400/1463, sizes "
+        "transit; RTP over all 64 first bytes 0x80..0xBF (P x X x CC with valid CSRC list / extension block / padding), RTCP over "
+        "padding x count 0..31 x packet type 192..208 (full sweeps in the corpus of every run), datagrams with every first byte "
+        "0..255 that nobody protected; data messages of 0, 1..1100, every size in {1180..1463} hit around 1200/1228/1243/1244/1280/1400/1463, sizes "
         "whose record exceeds one datagram (1464..16384) and sizes OpenSSL refuses (0, >2^14), in bursts in both directions "
         "between RTP/RTCP; earlier connections may be raw peers with a non-signalled certificate. intruder: sequences of 1..4 "
         "connections of a real transport with a scripted pyOpenSSL peer (certificate signalled or not; 0..3 application records "
@@ -1295,19 +1297,56 @@ def build_fps(spec, cert_i, other_i=2, signalled=None):
 RTP_PTS = [0, 8, 63, 81, 90, 95, 96, 127]
 
 
-def make_rtp(seq, payload, ssrc, pt=None):
-    from aiortc.rtp import RtpPacket
+def make_rtp(seq, payload, ssrc, pt=None, hdr=None):
+    """`hdr` (0..63) = the low six bits of the first byte: P (32) | X (16) | CC (0..15); the packet then carries a CSRC list of CC
+    entries, a one-byte-header extension block and/or padding, so that it is a VALID RTP packet with that first byte."""
     if pt is None:
         pt = RTP_PTS[seq % len(RTP_PTS)]
     marker = (seq // len(RTP_PTS)) % 2
-    p = RtpPacket(payload_type=pt, marker=marker, sequence_number=seq & 0xFFFF, timestamp=(seq * 160) & 0xFFFFFFFF, ssrc=ssrc)
-    p.payload = payload
-    return p.serialize()
+    if hdr is None:
+        from aiortc.rtp import RtpPacket
+        p = RtpPacket(payload_type=pt, marker=marker, sequence_number=seq & 0xFFFF, timestamp=(seq * 160) & 0xFFFFFFFF, ssrc=ssrc)
+        p.payload = payload
+        return p.serialize()
+    import struct
+    hdr &= 0x3F
+    b = struct.pack("!BBHII", 0x80 | hdr, (marker << 7) | pt, seq & 0xFFFF, (seq * 160) & 0xFFFFFFFF, ssrc)
+    b += b"".join(struct.pack("!I", 0x51C0000 + i) for i in range(hdr & 15))
+    if hdr & 16:
+        b += b"\xbe\xde\x00\x01" + b"\x10\xa5\x00\x00"      # RFC 8285 one-byte header: id 1, one byte of data, two bytes of padding
+    b += payload
+    if hdr & 32:
+        n = 4 - len(b) % 4
+        b += bytes(n - 1) + bytes([n])
+    return b
 
 
-def make_rtcp(ssrc, n):
-    from aiortc.rtp import RtcpSrPacket, RtcpSenderInfo
-    return bytes(RtcpSrPacket(ssrc=ssrc, sender_info=RtcpSenderInfo(ntp_timestamp=n, rtp_timestamp=n * 3, packet_count=n, octet_count=n * 7)))
+def make_rtcp(ssrc, n, pt=None, fb=None):
+    """`fb` (0..63) = the low six bits of the first byte: P (32) | count / FMT / subtype (0..31); `pt` = RTCP packet type (second
+    byte, 192..208 is what `is_rtcp` sends through SRTCP). The body has `count` well-formed items for SR/RR/SDES/BYE."""
+    if pt is None and fb is None:
+        from aiortc.rtp import RtcpSrPacket, RtcpSenderInfo
+        return bytes(RtcpSrPacket(ssrc=ssrc, sender_info=RtcpSenderInfo(ntp_timestamp=n, rtp_timestamp=n * 3, packet_count=n, octet_count=n * 7)))
+    import struct
+    pt = 200 if pt is None else pt
+    fb = (fb or 0) & 0x3F
+    count = fb & 31
+    block = lambda i: struct.pack("!IIIIII", 0x7000 + i, (i << 24) | 5, 1000 + i, n & 0xFFFF, i, n + i)
+    if pt == 200:
+        body = struct.pack("!IQIII", ssrc, n, n * 3, n, n * 7) + b"".join(block(i) for i in range(count))
+    elif pt == 201:
+        body = struct.pack("!I", ssrc) + b"".join(block(i) for i in range(count))
+    elif pt == 202:
+        body = b"".join(struct.pack("!I", ssrc + i) + b"\x01\x02ab" for i in range(max(count, 1)))
+    elif pt == 203:
+        body = b"".join(struct.pack("!I", ssrc + i) for i in range(max(count, 1)))
+    elif pt == 204:
+        body = struct.pack("!I", ssrc) + b"c04 " + struct.pack("!I", n)
+    else:
+        body = struct.pack("!III", ssrc, 0x7001, n)
+    if fb & 32:
+        body += b"\x00\x00\x00\x04"
+    return struct.pack("!BBH", 0x80 | fb, pt, len(body) // 4) + body
 
 
 SSRCS = {"A": [1831097322, 305419896, 4294901761], "B": [4028317929, 7, 2863311530]}
@@ -1331,9 +1370,10 @@ def norm_ops(traffic):
         if isinstance(op, dict):
             pl = op.get("pl", "") if op.get("n") is None else pattern(op["n"], op.get("salt", pos)).hex()
             d = {"op": op["op"], "s": op["s"], "pl": pl, "flip": op.get("flip"), "k": op.get("k", 0),
-                 "ext": op.get("ext"), "hold": op.get("hold", 0)}
+                 "ext": op.get("ext"), "hold": op.get("hold", 0), "hdr": op.get("hdr"), "pt": op.get("pt")}
         else:
-            d = {"op": op[0], "s": op[1], "pl": op[2], "flip": op[3] if len(op) > 3 else None, "k": 0, "ext": None, "hold": 0}
+            d = {"op": op[0], "s": op[1], "pl": op[2], "flip": op[3] if len(op) > 3 else None, "k": 0, "ext": None, "hold": 0,
+                 "hdr": None, "pt": None}
         if d["op"] in ("rtp", "rtcp") and d["ext"] is None:
             seq[d["s"]] += 1
             d["ext"] = seq[d["s"]]
@@ -1457,13 +1497,24 @@ async def _run_conn(case):
         r = rec[s]
         flip = op["flip"]
         ssrc = SSRCS[s][op["k"] % len(SSRCS[s])]
+        if kind == "junk":
+            # a datagram that did not come from the peer's transport (anything can arrive on the ICE socket): put on the link as is
+            payload = bytes.fromhex(op["pl"])
+            conn = ice[s]._connection
+            conn.tag = idx
+            await conn.send(payload)
+            conn.tag = None
+            ops.append({"i": idx, "kind": "junk", "s": s, "plain": payload, "altered": False, "hold": 0, "k": 0, "ext": None,
+                        "ssrc": None, "status": "junk", "generic": True})
+            await settle()
+            continue
         if kind == "data":
             payload = bytes.fromhex(op["pl"])
         elif kind == "rtp":
-            payload = make_rtp(op["ext"], bytes.fromhex(op["pl"]), ssrc)
+            payload = make_rtp(op["ext"], bytes.fromhex(op["pl"]), ssrc, hdr=op["hdr"])
         else:
             rtcp_n[s] += 1
-            payload = make_rtcp(ssrc, 1000 * op["k"] + rtcp_n[s])
+            payload = make_rtcp(ssrc, 1000 * op["k"] + rtcp_n[s], pt=op["pt"], fb=op["hdr"])
         conn = ice[s]._connection
         if flip is not None:
             def mut(d, flip=flip, kind=kind):
@@ -1503,7 +1554,7 @@ async def _run_conn(case):
         r.send_exc = None
         conn.mutate, conn.hold, conn.tag = None, 0, None
         ops.append({"i": idx, "kind": kind, "s": s, "plain": payload, "altered": flip is not None, "hold": op["hold"],
-                    "k": op["k"], "ext": op["ext"], "ssrc": ssrc, "status": status})
+                    "k": op["k"], "ext": op["ext"], "ssrc": ssrc, "status": status, "generic": op["hdr"] is not None or op["pt"] is not None})
         await settle()
     for s in "AB":
         await ice[s]._connection.flush()
@@ -1614,7 +1665,7 @@ class Pair(SeqComponent):
     theorems = ["connected_only_if", "delivery_only_if_validated", "failed_terminal", "failed_silent", "send_refused_unless_connected",
                 "srtp_only_after_setup", "recvNext_delivery", "recvNext_auth_failure_drops", "run_state_connected_iff",
                 "step_to_connected", "connected_stays", "inv_step", "sendRtp_state_unchanged", "sendRtp_protect_failure_visible",
-                "window_no_silent_loss"]
+                "window_no_silent_loss", "demux_rfc7983", "demux_table", "recvNext_drop", "recvNext_srtp_sweep", "recvNext_dtls_sweep"]
 
     def __init__(self):
         self._cache = {}    # case key -> {"line":…, "out":…, "taken":bool}
@@ -1657,6 +1708,22 @@ class Pair(SeqComponent):
                       {"op": "rtcp", "s": "A", "k": 1}, {"op": "rtcp", "s": "A", "k": 1, "hold": 1}, {"op": "rtcp", "s": "A", "k": 0},
                       {"op": "data", "s": "B", "pl": "0a0b", "hold": 1}, {"op": "data", "s": "B", "pl": "0c"}]
                 out.append(dict(base, roles=roles, profA=[prof], profB=[prof], traffic=tr))
+        # every first byte 0x80..0xBF: RTP with each of the 64 layouts P x X x CC (valid CSRC list / extension block / padding),
+        # payload types and marker cycling; RTCP with each padding x count and every packet type 192..208 (at count 0, 31 and
+        # 31 + padding as well); one direction each, then the other way round under the other role assignment / profile
+        def first_bytes(a, b):
+            tr = [dict(rtp(a, 900 + h, 1), hdr=h) for h in range(64)]
+            tr += [{"op": "rtcp", "s": b, "k": h % 3, "hdr": h, "pt": 192 + h % 17} for h in range(64)]
+            tr += [{"op": "rtcp", "s": b, "k": 0, "hdr": h, "pt": t} for t in range(192, 209) for h in (0, 31, 63)]
+            tr += [dict(rtp(a, 1000 + j, 1), hdr=63, pl="%02x" % j * (1 + 40 * j)) for j in range(4)]
+            return tr
+        out.append(dict(base, roles=["client", "server"], traffic=first_bytes("A", "B")))
+        # all 256 first bytes on datagrams nobody protected: [20..63] goes to OpenSSL, [128..191] to libsrtp (both discard it),
+        # everything else is dropped at once — the model must predict the same class for each; traffic still flows afterwards
+        out.append(dict(base, traffic=[["rtp", "A", "01"], ["data", "A", "02"]] +
+                        [{"op": "junk", "s": "AB"[b % 2], "pl": "%02x" % b + ("c8" if b % 3 == 0 else "60") + pattern(38, b).hex()} for b in range(256)] +
+                        [{"op": "junk", "s": "A", "pl": "bf"}, {"op": "junk", "s": "B", "pl": "14"}, ["rtp", "A", "03"], ["data", "B", "04"], ["rtp", "B", "05"], ["data", "A", "06"]]))
+        out.append(dict(base, roles=["server", "client"], profA=n[-1:], profB=n[-1:], traffic=first_bytes("B", "A")[::2]))
         # data messages of every size class in both directions, RTP/RTCP in between; then sizes OpenSSL refuses (visible, the
         # traffic after them still flows); last the sizes whose record does not fit one datagram
         def data(s_, n_, **kw):
@@ -1779,6 +1846,10 @@ class Pair(SeqComponent):
                     op["pl"] = bytes(rng.randrange(256) for _ in range(rng.choice(DATA_SMALL))).hex()
             elif kind == "rtcp":
                 op["k"] = rng.randrange(3)
+                if rng.random() < 0.6:
+                    # any padding bit x count / FMT (first byte 0x80..0xBF) x any packet type `is_rtcp` sends through SRTCP
+                    op["hdr"] = rng.choice([rng.randrange(64), rng.randrange(64), 0, 31, 32, 63])
+                    op["pt"] = rng.randrange(192, 209)
             else:
                 k = rng.choice([0, 0, 1, 2])
                 st = streams.get((s, k))
@@ -1801,6 +1872,9 @@ class Pair(SeqComponent):
                 st["hi"] = max(st["hi"], ext)
                 st["sent"].append(ext)
                 op.update(k=k, ext=ext, pl=bytes(rng.randrange(256) for _ in range(rng.choice([1, 2, 5, 20, 200, 1100, 1200]))).hex())
+                if rng.random() < 0.5:
+                    # any of the 64 header layouts P x X x CC (first byte 0x80..0xBF), as a valid packet
+                    op["hdr"] = rng.choice([rng.randrange(64), rng.randrange(64), 15, 16, 31, 32, 47, 48, 63])
             if not first:
                 if rng.random() < 0.25:
                     op["flip"] = rng.randrange(0, 1 << 14)
@@ -2074,8 +2148,8 @@ class Pair(SeqComponent):
                         f"transport for it: silently dropped by the sender")
         for o in arrived:
             kind = o["kind"]
-            if o["i"] in done:
-                continue       # a second datagram of the same op
+            if o["i"] in done or kind == "junk":
+                continue       # a second datagram of the same op / not sent by the transport: nothing of it may be delivered (below)
             done.add(o["i"])
             if o["status"] != "sent":
                 return f"{kind} op {o['i']} of {s} ({o['status']}) nevertheless put a datagram on the wire"
@@ -2110,11 +2184,15 @@ class Pair(SeqComponent):
                     must = False   # a retransmission of an index the receiver has delivered: libsrtp's replay protection may drop it
                 if o["hold"] and ss in hi and hi[ss] - o["ext"] >= MIN_WINDOW:
                     must = False   # overtaken in transit by too much
-                why = (f" seq={o['ext'] & 0xFFFF} (extended {o['ext']}) ssrc={ss}" +
+                why = (f" first byte 0x{o['plain'][0]:02x} (P={o['plain'][0] >> 5 & 1} X={o['plain'][0] >> 4 & 1} CC={o['plain'][0] & 15}) "
+                       f"second byte 0x{o['plain'][1]:02x} seq={o['ext'] & 0xFFFF} (extended {o['ext']}) ssrc={ss}" +
                        (f", {behind} behind the newest sequence number sent on that SSRC" if behind is not None and behind > 0 else ""))
                 if delivered:
                     seen.setdefault(ss, set()).add(o["ext"])
                     hi[ss] = max(hi.get(ss, -1), o["ext"])
+            if kind == "rtcp":
+                why = (f" first byte 0x{o['plain'][0]:02x} (P={o['plain'][0] >> 5 & 1} count={o['plain'][0] & 31}) packet type {o['plain'][1]} "
+                       f"of {len(o['plain'])} bytes")
             if must and not delivered:
                 if kind == "data":
                     return (f"data message{why} was accepted by {s}'s _send_data without an exception (op {o['i']}), nothing was altered "
@@ -2137,7 +2215,9 @@ class Pair(SeqComponent):
         want_rr = [(p.ssrc, p.sequence_number, bytes(p.payload)) for p in (RtpPacket.parse(x) for x in got["rtp"])]
         if res["rr"][peer]["rtp"] != want_rr:
             return f"RTP receiver of {peer} did not get exactly the RTP packets that passed SRTP (sent by {s})"
-        if res["rr"][peer]["rtcp"] != len(got["rtcp"]):
+        # (the legacy RTCP ops are single sender reports routed to the receiver; generic packet types / counts are parsed and
+        # routed by code outside this property)
+        if not any(o.get("generic") for o in res["ops"] if o["kind"] == "rtcp") and res["rr"][peer]["rtcp"] != len(got["rtcp"]):
             return f"RTP receiver of {peer} got {res['rr'][peer]['rtcp']} RTCP packets, expected {len(got['rtcp'])}"
         return None
 
@@ -2185,7 +2265,7 @@ class Pair(SeqComponent):
                 return msg
         # sends are refused unless connected
         for s in "AB":
-            mine = [o for o in res["ops"] if o["s"] == s]
+            mine = [o for o in res["ops"] if o["s"] == s and o["kind"] != "junk"]
             if res["state"][s] != "connected" and any(o["status"] != "refused" for o in mine):
                 return f"side {s} is {res['state'][s]} but accepted {sum(1 for o in mine if o['status'] != 'refused')} send(s)"
             dfacts, overhead = _data_facts(res)
